@@ -49,7 +49,7 @@ def totality_case(draw, tier="quick"):
     h = _h(setting)
     length = max(0, 2 * h + draw(st.sampled_from([-2, -1, 0, 1, 2, 3]))) if draw(st.booleans()) else draw(st.integers(0, 8))
     if draw(st.booleans()):
-        kind = draw(st.sampled_from(V.ALL_KINDS + ["weird_float", "weird_int", "weird_str", "mixed"]))
+        kind = draw(st.sampled_from(V.ALL_KINDS + ["weird_float", "weird_int", "weird_str", "mixed", "rung_float", "rung_datetime", "rung_complex"]))
         vals = _column(draw, kind, length)
         return {"what": "vector", "setting": setting, "vals": vals, "name": draw(V.any_names), "as_row": draw(st.booleans())}
     width = draw(st.sampled_from([0, 1, 2, 3, 9, 10, 11, 12, 25]))
@@ -59,7 +59,7 @@ def totality_case(draw, tier="quick"):
     uniform = draw(st.sampled_from([None, None, "int", "float", "str"]))      # wide tables whose visible columns agree
     odd = draw(st.integers(0, max(0, width - 1)))
     for j in range(width):
-        kind = draw(st.sampled_from(["int", "float", "str", "date", "bool", "weird_float", "mixed", "bytes", "weird_str", "complex", "datetime"]))
+        kind = draw(st.sampled_from(["int", "float", "str", "date", "bool", "weird_float", "mixed", "bytes", "weird_str", "complex", "datetime", "rung_float", "rung_datetime", "rung_complex"]))
         if uniform is not None and length:
             if j == odd and draw(st.booleans()):
                 col = _column(draw, draw(st.sampled_from(["str", "bool", "date"])), length)
@@ -75,7 +75,10 @@ def totality_case(draw, tier="quick"):
 
 def _column(draw, kind, n):
     el = {"weird_float": weird_floats, "weird_int": weird_ints, "weird_str": weird_strs,
-          "mixed": st.one_of(st.none(), V.any_scalar, weird_floats)}.get(kind) or V.SCALARS[kind]
+          "mixed": st.one_of(st.none(), V.any_scalar, weird_floats),
+          # one dtype, elements of different rungs (serif keeps raw values): float holding ints / bools, datetime holding dates, complex holding floats
+          "rung_float": st.one_of(V.floats, V.ints, st.booleans()), "rung_datetime": st.one_of(V.datetimes, V.dates),
+          "rung_complex": st.one_of(V.complexes, V.small_floats, V.small_ints)}.get(kind) or V.SCALARS[kind]
     xs = draw(st.lists(el, min_size=n, max_size=n))
     if kind != "mixed":
         xs = [None if f else x for x, f in zip(xs, draw(V.none_mask(n)))]
